@@ -19,7 +19,6 @@ pending = {
  "C02":"simulation target (faults on stored bytes / streams), check not built yet in this revision",
  "C09":"simulation target (histories + plug-in faults), check not built yet in this revision",
  "C12":"simulation target (plug-in fault sequences), check not built yet in this revision",
- "C20":"simulation target (interleavings under the race detector), check not built yet in this revision",
 }
 checks = {
  "C19": dict(cat="fault_enumeration", ref="DESIGN.md §3 C19, §2.5",
@@ -39,7 +38,11 @@ checks = {
    note="trusted: the permuted key snapshot is a legal Go map iteration order; pointer-key canonical order by first-insertion stamps",
    tech="deterministic simulation: map-iteration order and fetch completion order as seeded schedule dimensions, byte-equality oracle"),
 }
-order = ["C08","C10","C16","C19"]
+checks["C20"]=dict(cat="exploration", ref="DESIGN.md §3 C20, §2.2",
+   text="the tool's own concurrent operations (Write/Copy on a shared profile, option get/set, temp-file creation, concurrent web requests, parallel fetch) run as simulated tasks under a seeded scheduler whose hand-offs are invisible to the Go race detector; a race report, deadlock, hang, torn output or a result that differs from the one-at-a-time execution is a violation.",
+   note="trusted: runtime.RaceDisable semantics (sync events ignored, memory accesses still tracked); the simulated kernel and scheduler are //go:norace so they add no happens-before edges and no reports of their own",
+   tech="deterministic simulation: seeded interleavings (random walk, PCT, function-entry preemption) under the race detector with race-invisible scheduling; sequential-equivalence and linearizability oracles")
+order = ["C08","C10","C16","C19","C20"]
 m = {
  "version":1,
  "setup_cmd":"cd /verif && ./setup.sh",
